@@ -10,7 +10,7 @@ ASSUMPTIONS = ['A-SC; checked memory-order discipline: loads of the other role\'
                'verified at the buffer sizes of SPSCRingBuffer<int,1|2|3|15,true> and <int,2|5,false> (kBufferSize in {2,4,16} power-of-two and {3,6} exact); head_/tail_ fully symbolic',
                'storage_ bytes are rendered as a slot array (elementAt(i) = &slots[i]); alignment of storage_ is alignas(T) in the source and not re-verified',
                'FIFO order and exactly-once follow from the slot-lifetime invariant + index discipline proved here; the abstract sequence itself is not carried as ghost state',
-               'batch operations (try_push_batch / try_pop_batch) and OpResult-returning try_pop are not under contract yet']
+               'OpResult-returning try_pop is not under contract yet; batch iterators are rendered as indices into arrays']
 EXPLANATION = 'slot k is live <=> k in cyclic [head,tail) is preserved by every operation under arbitrary interference of the other role'
 
 F = 'dispenso/spsc_ring_buffer.h'
@@ -47,6 +47,13 @@ def build(ctx):
              subs=pop_common + [('R12', r'item\s*=\s*std::move\(\*elem\);', 'item->value = T_move_from(elem);', 1)])
     ctx.emit('Ring_try_pop_into.body.inc', r.function(F, r'bool\s+try_pop_into\s*\(\s*T\*\s*storage\s*\)', within=CLS), must_fire=['R7', 'R12'],
              subs=pop_common + [('R12', r'new\s*\(storage\)\s*T\(std::move\(\*elem\)\);', 'T_construct_at(storage, T_move_from(elem));', 1)])
+    ctx.emit('Ring_try_push_batch.body.inc', r.function(F, r'size_type\s+try_push_batch\s*\(\s*InputIt\s+first\s*,\s*InputIt\s+last\s*\)', within=CLS), must_fire=['R7', 'R12'],
+             subs=[LH, LT, ST, ('R12', r'new\s*\(elementAt\(tailPos\)\)\s*T\(std::move\(\*first\)\);', 'T_construct_at(elementAt(self, tailPos), T_move_from(&src[first]));', 1)])
+    ctx.emit('Ring_try_pop_batch.body.inc', r.function(F, r'size_type\s+try_pop_batch\s*\(\s*OutputIt\s+dest\s*,\s*size_type\s+maxCount\s*\)', within=CLS), must_fire=['R7', 'R12', 'R3'],
+             subs=[LH, LT, SH, ('R9', r'T\*\s+elem\s*=\s*elementAt\(headPos\);', 'T_cell* elem = elementAt(self, headPos);', 1),
+                   ('R12', r'\*dest\s*=\s*std::move\(\*elem\);', 'dst[dest].value = T_move_from(elem);', 1),
+                   ('R12', r'elem->~T\(\);', 'T_destroy_at(elem);', 1),
+                   ('R3', r'std::min\(available,\s*maxCount\)', 'MIN_auto(available, maxCount)', 1)])
     ctx.emit('Ring_empty.body.inc', r.function(F, r'bool\s+empty\s*\(\s*\)\s*const', within=CLS), must_fire=['R7'], subs=[LH, LT])
     ctx.emit('Ring_full.body.inc', r.function(F, r'bool\s+full\s*\(\s*\)\s*const', within=CLS), must_fire=['R7'], subs=[LH, LT])
     ctx.emit('Ring_size.body.inc', r.function(F, r'size_type\s+size\s*\(\s*\)\s*const', within=CLS), must_fire=['R7'], subs=[LH, LT])
@@ -59,10 +66,10 @@ def build(ctx):
         kb = probe(ctx, cap, ru)
         d = {'KBUF': str(kb), 'KPOW2': '1' if (kb & (kb - 1)) == 0 else '0'}
         inst = 'Capacity=%d,RoundUp=%s,kBufferSize=%d' % (cap, ru, kb)
-        common = dict(defines=d, inst=inst, timeout=600, unwind=kb + 2,
+        common = dict(defines=d, inst=inst, timeout=600, unwind=kb + 4,
                       assumptions=['slot loops of the interference step, harness and destructor are bounded by the constant kBufferSize: unwound completely'])
         units.append(Unit('increment', 'cbmc', S, 'increment', expect=[r'postcondition'], defines=d, inst=inst))
-        for fn in ('Ring_try_push_move', 'Ring_try_push_copy', 'Ring_try_emplace', 'Ring_try_pop_ref', 'Ring_try_pop_into'):
+        for fn in ('Ring_try_push_move', 'Ring_try_push_copy', 'Ring_try_emplace', 'Ring_try_pop_ref', 'Ring_try_pop_into', 'Ring_try_push_batch', 'Ring_try_pop_batch'):
             units.append(Unit(fn.replace('Ring_', 'SPSC.'), 'cbmc', S, fn, expect=[r'postcondition\.3', r'T_construct_at\.assertion|T_destroy_at\.assertion'], **common))
         for fn in ('Ring_empty', 'Ring_full', 'Ring_size', 'Ring_dtor'):
             units.append(Unit(fn.replace('Ring_', 'SPSC.'), 'cbmc', S, fn, expect=[r'postcondition'], **common))
